@@ -755,8 +755,40 @@ func init() {
 		m["sort.Slice"] = sortFn
 
 		// ---------------- sync: executions are sequential (no goroutines in the model): locking is a no-op
-		for _, mname := range []string{"(*sync.Mutex).Lock", "(*sync.Mutex).Unlock", "(*sync.RWMutex).Lock", "(*sync.RWMutex).Unlock", "(*sync.RWMutex).RLock", "(*sync.RWMutex).RUnlock"} {
-			m[mname] = noop
+		// (no goroutines in the model); which mutexes are held is tracked for the lock-discipline obligation
+		lock := func(ex *Exec, fr *frame, cc *ssa.CallCommon, a []Value) Value {
+			k := muKey(a[0].(VPtr))
+			if ex.held[k] > 0 || ex.held[k+"/r"] > 0 {
+				panic(goPanic{"deadlock: lock of a mutex this execution already holds"})
+			}
+			ex.held[k]++
+			return nil
+		}
+		unlock := func(ex *Exec, fr *frame, cc *ssa.CallCommon, a []Value) Value {
+			k := muKey(a[0].(VPtr))
+			if ex.held[k] == 0 {
+				panic(goPanic{"sync: unlock of unlocked mutex"})
+			}
+			ex.held[k]--
+			return nil
+		}
+		m["(*sync.Mutex).Lock"], m["(*sync.RWMutex).Lock"] = lock, lock
+		m["(*sync.Mutex).Unlock"], m["(*sync.RWMutex).Unlock"] = unlock, unlock
+		m["(*sync.RWMutex).RLock"] = func(ex *Exec, fr *frame, cc *ssa.CallCommon, a []Value) Value {
+			k := muKey(a[0].(VPtr))
+			if ex.held[k] > 0 {
+				panic(goPanic{"deadlock: read lock of a mutex this execution holds for writing"})
+			}
+			ex.held[k+"/r"]++
+			return nil
+		}
+		m["(*sync.RWMutex).RUnlock"] = func(ex *Exec, fr *frame, cc *ssa.CallCommon, a []Value) Value {
+			k := muKey(a[0].(VPtr))
+			if ex.held[k+"/r"] == 0 {
+				panic(goPanic{"sync: RUnlock of unlocked RWMutex"})
+			}
+			ex.held[k+"/r"]--
+			return nil
 		}
 		// ---------------- misc no-ops
 		m["github.com/cosmos/cosmos-sdk/telemetry.ModuleMeasureSince"] = noop
